@@ -116,7 +116,8 @@ def cases(tier):
 
 
 def q_scenario(sid, joined):
-    return "S %s quoting\nQ %s\n" % (sid, hx(joined))
+    # every third string goes through the one-parameter form (program name = first word of the string)
+    return "S %s quoting\n%s %s\n" % (sid, "Q1" if (len(joined) + ord(joined[-1:] or "a")) % 3 == 0 else "Q", hx(joined))
 
 
 def gen_case(seed, idx, tier):
